@@ -124,6 +124,18 @@ type (
 	IvPtrMap struct {
 		A *map[int32]int32 `frugal:"1,optional,map<i32:i32>"`
 	}
+	IvPtrSet struct {
+		A *[]int32 `frugal:"1,optional,set<i32>"`
+	}
+	IvPtrSetS struct {
+		A *[]string `frugal:"1,optional,set<string>"`
+	}
+	IvPtrSetDeep struct {
+		L []map[string]IvPtrSet `frugal:"1,default,list<map<string:IvPtrSet>>"`
+	}
+	IvPtrListReq struct {
+		A *[]int64 `frugal:"1,default,list<i64>"`
+	}
 	IvElemPP struct {
 		A []**Leaf `frugal:"1,default,list<Leaf>"`
 	}
@@ -243,7 +255,7 @@ var ivCases = []ivCase{
 	ivc[IvSyn1]("missing->"), ivc[IvSyn2]("comma-for-colon"), ivc[IvSyn3]("empty-elem"), ivc[IvSyn4]("empty-value"), ivc[IvSyn5]("missing-<"), ivc[IvSyn6]("unbalanced-nested"),
 	ivc[IvKeyBin]("array-key"), ivc[IvKeyStr]("struct-value-key"), ivc[IvKeyPtrI]("pointer-to-int-key"), ivc[IvKeyIface]("interface-key"),
 	ivc[IvPtrReq]("required-pointer-scalar"), ivc[IvPtrDef]("default-pointer-scalar"), ivc[IvPtrElem]("pointer-scalar-element"), ivc[IvPtrVal]("pointer-scalar-map-value"),
-	ivc[IvPtrPtr]("pointer-to-pointer-struct"), ivc[IvPtrPtrI]("pointer-to-pointer-scalar"), ivc[IvPtrSlice]("pointer-to-slice"), ivc[IvPtrMap]("pointer-to-map"), ivc[IvElemPP]("element-pointer-to-pointer"),
+	ivc[IvPtrPtr]("pointer-to-pointer-struct"), ivc[IvPtrPtrI]("pointer-to-pointer-scalar"), ivc[IvPtrSlice]("pointer-to-slice"), ivc[IvPtrMap]("pointer-to-map"), ivc[IvPtrSet]("pointer-to-slice-as-set"), ivc[IvPtrSetS]("pointer-to-string-slice-as-set"), ivc[IvPtrSetDeep]("pointer-to-set-nested-in-list-of-maps"), ivc[IvPtrListReq]("default-pointer-to-slice"), ivc[IvElemPP]("element-pointer-to-pointer"),
 	ivc[IvPtrBinEl]("pointer-to-binary-list-element"), ivc[IvPtrBinSe]("pointer-to-binary-set-element"), ivc[IvPtrBinMv]("pointer-to-binary-map-value"),
 	ivc[IvPtrStrEl]("pointer-to-string-list-element"), ivc[IvPtrBinIn]("pointer-to-binary-element-nested"),
 	ivc[IvDupID]("duplicate-id"), ivc[IvIDText]("non-numeric-id"), ivc[IvIDBig]("id-65536"), ivc[IvIDNeg]("negative-id"), ivc[IvIDEmpty]("empty-id"),
